@@ -1,2 +1,3 @@
 CONSTANTS
   N = 2
+  Offsets = {0, 5, 11, 16, 22, 27}
